@@ -619,6 +619,11 @@ def run(tier, seed, replay=None):
         "values are abstracted to str/bool/int/float/None/list/dict/other (no subclasses of str, list, dict); kwargs have distinct keys (Python guarantees it)",
         "the undocumented `environment` constructor, positional constructor calls and SystemExit raised by a COND file are outside the documented constructors",
         "distinctness of a task's deps is read as part of 'list of task identifiers this task depends on'",
+        "argument objects are not mutated between the constructor call and the loading of the task: `d = []; run_command(..., deps=d); d.append(5)` is checked at call "
+        "time and used later, and the late type error escapes as a traceback; the property quantifies over constructor calls with arbitrary argument VALUES",
+        "run_experiment_group's own parameters (`run`, `deps`, `chain_experiments`) are not type-checked by the group itself: acceptance of a group is acceptance of its "
+        "documented expansion (C19); a truthy non-boolean `chain_experiments` chains",
+        "whole-closure acceptance (`cond run --check`) composes the per-task decision proved here with the traversal of C14; that composition is exercised end to end, not proved",
     ]
     setup_impl_path()
     import conductor.__main__  # noqa: F401  pylint: disable=unused-import,import-outside-toplevel
